@@ -38,17 +38,19 @@ def load_make_notebook():
     import ast
     tree = ast.parse(src)
     fn = [n for n in tree.body if isinstance(n, ast.FunctionDef) and n.name == 'apply_command'][0]
-    gen = None
+    # branches that compute on symbolic data themselves (not only through library calls) are lifted separately from their
+    # own source lines, one function apply_<name>(command, arguments) per branch
+    wanted = {'generate': 'apply_generate', 'cfg_cyk_matrix': 'apply_cfg_cyk_matrix', 'cfg_leftmost_derivation': 'apply_cfg_derivation'}
     node = fn.body[0]
+    funcs = []
     while isinstance(node, ast.If):
-        t = node.test
-        if isinstance(t, ast.Compare) and isinstance(t.comparators[0], ast.Constant) and t.comparators[0].value == 'generate':
-            gen = node.body
-            break
+        consts = [x.value for x in ast.walk(node.test) if isinstance(x, ast.Constant) and isinstance(x.value, str)]
+        for k, name in wanted.items():
+            if k in consts:
+                funcs.append(ast.FunctionDef(name=name, args=fn.args, body=node.body, decorator_list=[], returns=None, type_params=[]))
         node = node.orelse[0] if node.orelse else None
-    if gen is not None:
-        f2 = ast.FunctionDef(name='apply_generate', args=fn.args, body=gen, decorator_list=[], returns=None, type_params=[])
-        mod = ast.Module(body=[f2], type_ignores=[])
+    if funcs:
+        mod = ast.Module(body=funcs, type_ignores=[])
         ast.fix_missing_locations(mod)
         lifted = rewrite.Lifter().visit(mod)
         ast.fix_missing_locations(lifted)
@@ -276,6 +278,53 @@ def job_chomsky(job, family, phase, nsym=6, length=3, eps=None):
     return job.solve()
 
 
+def job_cfg_exercise(job, what, word, nsym=5):
+    """CYK-table and derivation exercises: answer = apply_command('cfg_cyk_matrix' | 'cfg_leftmost_derivation' | 'cfg_rightmost_derivation'),
+    checked by check_cyk_matrix / check_cfg_derivation; CNF grammar with symbolic rules; derivations only for generated words"""
+    import gambatools.notebook_cfg as NC
+    from .cfg_sym import GrammarSem
+    # Chomsky normal form in the library's sense (CFG.is_chomsky): the start variable does not occur on a right-hand side -
+    # for other grammars apply_command declines to generate the exercise (RuntimeError / warning), so they are outside the claim
+    CYK_RULES = [('S', 'AB'), ('A', 'a'), ('B', 'b'), ('S', 'BA'), ('A', 'b'), ('B', 'a'), ('S', 'a'), ('A', 'AA'), ('B', 'AB')]
+    CYK_FIXED = 3
+    MN = load_make_notebook()
+    job.functions('notebook_cfg', ['check_cyk_matrix', 'check_cfg_derivation', 'cfg_has_derivation', 'cfg_apply_rule'])
+    job.functions('cfg_algorithms', ['cfg_cyk_matrix', 'cfg_print_cyk_matrix', 'cfg_derive_word', 'parse_simple_cfg'])
+    d = E.dag
+    c.set_exhaustive(12)
+    E.while_bound = 60
+    variables = ['S', 'A', 'B']
+    rules = CYK_RULES[:CYK_FIXED + nsym]
+    bits = [TRUE] * CYK_FIXED + [E.fresh('rule_%s_%s' % (X, r)) for X, r in rules[CYK_FIXED:]]
+    entries = [(b, X, tuple(r)) for b, (X, r) in zip(bits, rules)]
+    FILES['ref.cfg'] = L.GStr([(b, '%s -> %s\n' % (X, r)) for b, (X, r) in zip(bits, rules)])
+    dec = lambda mv: {'V': variables, 'Sigma': ['a', 'b'], 'S': 'S', 'R': [[X, list(r)] for b, (X, r) in zip(bits, rules) if mv(b)]}
+    job.inputs['G'] = None
+    job.decoders['G'] = dec
+    rp = ('cfg_exercise', {'G': dec, 'what': what, 'word': word})
+    if what == 'cyk':
+        answer = job.call(MN['apply_cfg_cyk_matrix'], 'cfg_cyk_matrix', ['ref.cfg', word], replay=rp)
+    else:
+        # the exercise is only generated for words of the language
+        E.assumptions.append(GrammarSem(entries, variables, word).derives('S'))
+        answer = job.call(MN['apply_cfg_derivation'], 'cfg_%s_derivation' % what, ['ref.cfg', word], replay=rp)
+    if answer is None:
+        job.lifted()
+        return job.solve()
+    if what == 'cyk':
+        ev = run_checker(NC.check_cyk_matrix, FILES['ref.cfg'], word, answer)
+    else:
+        ev = run_checker(NC.check_cfg_derivation, FILES['ref.cfg'], answer, word, what)
+    job.lifted()
+    job.inputs['printed'] = None
+    job.decoders['printed'] = printed_json(ev)
+    job.oblige('the checker prints OK (and nothing else) for the answer generated by apply_command (%s, word %r)' % (what, word), only_ok_bad(ev), replay=rp)
+    job.must_reach('some grammar of the family generates the word', TRUE)
+    job.failures_as_obligations(replay=rp)
+    job.sample_replays = 3
+    return job.solve()
+
+
 def jobs(tier):
     J = []
 
@@ -305,6 +354,10 @@ def jobs(tier):
             add('chomsky%d_%s' % (phase, fam), job_chomsky, family=fam, phase=phase, timeout=tmo)
     add('chomsky1_repeated_nullable_eps_e', job_chomsky, family='repeated_nullable', phase=1, eps='e', timeout=tmo)
     add('chomsky2_indirect_nullable_eps_e', job_chomsky, family='indirect_nullable', phase=2, eps='e', timeout=tmo)
+    for w in ('ab', 'ba', 'aab'):
+        add('cyk_table_%s' % w, job_cfg_exercise, what='cyk', word=w, timeout=tmo)
+        for dt in ('leftmost', 'rightmost'):
+            add('derivation_%s_%s' % (dt, w), job_cfg_exercise, what=dt, word=w, timeout=tmo)
     from .C12 import MINIMAL_REFS
     for ref in MINIMAL_REFS:
         for which in ('dfa_minimize', 'dfa_hopfcroft'):
@@ -404,4 +457,24 @@ def _replay_chomsky(rp):
     return lines != ['OK'], {'reference': ref, 'generated answer': answer, 'printed': lines}
 
 
-REPLAY = {'chomsky': _replay_chomsky, 'dfa_exercise': _replay_dfa_exercise, 'nfa2dfa': _replay_nfa2dfa, 'minimal': _replay_minimal}
+def _replay_cfg_exercise(rp):
+    import gambatools.notebook_cfg as NC
+    from .C12 import _capture
+    ref = ''.join('%s -> %s\n' % (X, ''.join(rhs)) for X, rhs in rp['G']['R'])
+    what, word = rp['what'], rp['word']
+    try:
+        if what == 'cyk':
+            answer = _apply_native('cfg_cyk_matrix', [('cfg', ref)], [word])
+            # display(Markdown(...)) falls back to printing the object's repr outside a notebook: not checker output
+            lines = [l for l in _capture(NC.check_cyk_matrix, ref, word, answer) if not l.startswith('<IPython')]
+        else:
+            if not nat.ref_cfg_accepts(rp['G'], word):
+                return False, {'skipped': 'word not in the language'}
+            answer = _apply_native('cfg_%s_derivation' % what, [('cfg', ref)], [word])
+            lines = _capture(NC.check_cfg_derivation, ref, answer, word, what)
+    except Exception as e:
+        return True, {'raised': repr(e)}
+    return lines != ['OK'], {'reference': ref, 'generated answer': answer, 'printed': lines}
+
+
+REPLAY = {'cfg_exercise': _replay_cfg_exercise, 'chomsky': _replay_chomsky, 'dfa_exercise': _replay_dfa_exercise, 'nfa2dfa': _replay_nfa2dfa, 'minimal': _replay_minimal}
